@@ -180,6 +180,11 @@ class NormDomain(Domain):
             if isinstance(op, ast.NotEq) and ra == rb:
                 return False
             d = ra - rb
+            nz = getattr(self, 'nonzero', None)
+            if nz and d.den.is_const() and len(d.num.t) == 1:
+                (m, c), = d.num.t.items()
+                if len(m) == 1 and m[0][0] in nz and isinstance(op, (ast.Eq, ast.NotEq)):
+                    return isinstance(op, ast.NotEq)
             if d.num.is_const() and d.den.is_const():
                 c = d.num.const_value() / d.den.const_value()
                 import operator
